@@ -16,18 +16,25 @@ impl Filterer for Scripted {
 
 // case: <id> <throttle_ms> <handler_ms> <arrivals: off:id:prio(l|n|h|u):kind(t|e):verdict(p|r|e),…>
 /// `ecap` / `edelay`: capacity of the runtime-error channel and time the error consumer spends per error (a slow `on_error`)
-async fn run_case(throttle: u64, handler_ms: u64, arrivals: Vec<(u64, String, Priority, bool, char)>, changes: Vec<(u64, u64)>, ecap: usize, edelay: u64, floods: Vec<(u64, u64)>) -> String {
+async fn run_case(throttle: u64, handler_ms: u64, arrivals: Vec<(u64, String, Priority, bool, char)>, changes: Vec<(u64, u64)>, ecap: usize, edelay: u64, floods: Vec<(u64, u64)>, is_async: bool) -> String {
     let config = Arc::new(Config::default());
     config.throttle(Duration::from_millis(throttle));
     let seen_by_filter = Arc::new(Mutex::new(vec![]));
     config.filterer(Scripted(arrivals.iter().map(|a| (a.1.clone(), a.4)).collect(), seen_by_filter.clone()));
     let t0 = Instant::now();
     let batches: Arc<Mutex<Vec<(u128, Vec<String>)>>> = Default::default();
+    if is_async {
+        config.on_action_async({ let b = batches.clone(); move |action| {
+            let ids = action.events.iter().map(|e| e.metadata.get("id").and_then(|v| v.first()).cloned().unwrap_or("?".into())).collect();
+            b.lock().unwrap().push((t0.elapsed().as_micros(), ids));
+            Box::new(async move { if handler_ms > 0 { tokio::time::sleep(Duration::from_millis(handler_ms)).await; } else { tokio::task::yield_now().await; } action }) } });
+    } else {
     config.on_action({ let b = batches.clone(); move |action| {
         let ids = action.events.iter().map(|e| e.metadata.get("id").and_then(|v| v.first()).cloned().unwrap_or("?".into())).collect();
         b.lock().unwrap().push((t0.elapsed().as_micros(), ids));
         if handler_ms > 0 { std::thread::sleep(Duration::from_millis(handler_ms)); }
         action } });
+    }
     let (ev_s, ev_r) = async_priority_channel::bounded(64);
     let (er_s, er_r) = tokio::sync::mpsc::channel::<RuntimeError>(ecap);
     let errcount = Arc::new(std::sync::atomic::AtomicUsize::new(0));
@@ -88,9 +95,11 @@ fn main() {
                 // handler field: `<ms>` or `<ms>e<error channel capacity>x<ms per error>`
                 let (hms, ecfg) = f[2].split_once('e').map(|(a, b)| (a.to_string(), Some(b.to_string()))).unwrap_or((f[2].clone(), None));
                 let (ecap, edelay): (usize, u64) = ecfg.map(|e| { let (c, d) = e.split_once('x').unwrap(); (c.parse().unwrap(), d.parse().unwrap()) }).unwrap_or((64, 0));
-                let (th, hm) = (f[1].parse().unwrap(), hms.parse().unwrap());
+                // a leading `a`: the handler is installed with on_action_async and spends its time in the awaited future
+                let is_async = hms.starts_with('a');
+                let (th, hm) = (f[1].parse().unwrap(), hms.trim_start_matches('a').parse().unwrap());
                 let id = f[0].clone();
-                cur.push(tokio::spawn(async move { format!("{} {}", id, run_case(th, hm, arr, changes, ecap, edelay, floods).await) }));
+                cur.push(tokio::spawn(async move { format!("{} {}", id, run_case(th, hm, arr, changes, ecap, edelay, floods, is_async).await) }));
             }
             for h in cur { hs.push(h.await.unwrap()); }
         }
